@@ -7,6 +7,23 @@ HERE = os.path.dirname(os.path.dirname(os.path.abspath(__file__)))
 
 # property -> (technique, level text, level note, design ref)
 CLAIMED = {
+    "C05": (
+        "exception-escape analysis over a class-hierarchy call graph (explicit raise sites plus "
+        "an implicit may-raise catalogue, filtered by enclosing handlers, with def-use taint to "
+        "separate description validation from input-triggered raises), dominance check of the "
+        "truncated-PDU and MIN-LENGTH guards, handler-type check of the candidate loops",
+        "Decides, for every function reachable from the five decode entry points (about 150) "
+        "and every path to a raise site, that an exception whose trigger is the value of the "
+        "bytes being decoded belongs to the DecodeError family, that the catalogue constructs "
+        "are guarded, that no byte of the PDU is read without a dominating unconditional "
+        "DecodeError guard using the same length expression, and that all candidate loops catch "
+        "DecodeError. This quantifies over all byte strings because it is a property of paths, "
+        "not of sampled inputs.",
+        "Not decided: termination of the decoding loops; exceptions from constructs outside the "
+        "catalogue; raises that validate the description (listed in the evidence). Trusted: "
+        "annotation-based call resolution (fallback count reported), the exemption table EXEMPT "
+        "in sa/rules/c05.py.",
+        "DESIGN.md section 3, C05"),
     "C07": (
         "decision-table extraction (interval types, value comparison, scale applicability, "
         "category factory, limit swap), def-use expansion of converter guards against validity "
